@@ -71,6 +71,41 @@ def first_diff(t, a, b, in_coll=False):
     return k
 
 
+def decode_oracle(ctx, c, prefix, theorem, what):
+    """on the implementation: the bytes written for x (C01) / Cassandra's encoding of x (C02) must decode to norm(x)"""
+    if 'bs' in c or c['enc'] is None:
+        return
+    t, v = c['t'], c['v']
+    if not (wf_type(t) and py_repr(t, v)):
+        ctx.count('outside_statement', 'wrapper-over-text / empty tuple / timestamp beyond datetime')
+        return
+    want = G.norm(t, v)
+    got = G.norm(t, c['dec']) if c['dec'] is not None else None
+    if got == want:
+        return
+    where = 'decode-raises.' + G.kind_of(t) if got is None else first_diff(t, want, got)
+    ctx.violation(prefix + '.' + str(where),
+                  '%s for %s at protocol v%d: value %s came back as %s%s'
+                  % (what, json.dumps(t), c['pv'], json.dumps(v)[:200], json.dumps(c['dec'])[:200], ' (%s)' % c['dec_exc'] if c['dec_exc'] else ''),
+                  case={'pv': c['pv'], 't': t, 'v': v}, expected=want, actual=c['dec'] if c['dec'] is not None else c['dec_exc'],
+                  theorem=theorem)
+
+
+def image_oracle(ctx, c):
+    """hand-built encodings: the driver must decode them to the value Cassandra means"""
+    t = c['t']
+    want = G.norm(t, c['want'])
+    got = G.norm(t, c['dec']) if c['dec'] is not None else None
+    if got == want:
+        return
+    where = 'decode-raises.' + G.kind_of(t) if got is None else first_diff(t, want, got)
+    ctx.violation('decodes-image.hand-built.' + str(where),
+                  'Cassandra\'s encoding %s of %s value %s decodes to %s%s at protocol v%d'
+                  % (bytes(c['bs']).hex(), json.dumps(t), json.dumps(c['want']), json.dumps(c['dec']), ' (%s)' % c['dec_exc'] if c['dec_exc'] else '', c['pv']),
+                  case={'pv': c['pv'], 't': t, 'bs': c['bs'], 'want': c['want']}, expected=want, actual=c['dec'] if c['dec'] is not None else c['dec_exc'],
+                  theorem='C02_decodes_image')
+
+
 def run_case(pv, t, v, rng=None, stream='valid'):
     """encode with the real driver, then decode what it produced"""
     T = G.driver_type(t, rng)
@@ -131,7 +166,58 @@ SPECIALS = [
     (4, ['s', 'duration'], ['dur', 2 ** 31, -1, -2 ** 63]),
     (4, ['s', 'text'], ['text', [0x10ffff, 0, 0xd7ff]]),
     (4, ['s', 'varint'], ['int', -2 ** 63 - 1]),
+    (4, ['s', 'varint'], ['int', -128]),
+    (4, ['tuple', [['s', 'text'], ['s', 'blob'], ['s', 'ascii']]], ['seq', [['text', []], ['bytes', []], ['text', []]]]),
+    (4, ['udt', [['s', 'text'], ['s', 'int'], ['s', 'blob']]], ['seq', [['text', []], ['null'], ['bytes', []]]]),
+    (3, ['list', ['tuple', [['s', 'text'], ['s', 'int']]]], ['seq', [['seq', [['text', []], ['int', 0]]], ['seq', [['null'], ['null']]]]]),
+    (4, ['map', ['s', 'text'], ['udt', [['s', 'blob'], ['s', 'ascii']]]], ['map', [[['text', []], ['seq', [['bytes', []], ['text', []]]]]]]),
+    (5, ['set', ['tuple', [['s', 'ascii'], ['tuple', [['s', 'text']]]]]], ['seq', [['seq', [['text', []], ['seq', [['text', []]]]]]]]),
 ]
+
+# hand-built encodings (written from the protocol specification, not produced by any encoder): what Cassandra sends
+# for the value on the right.  [pv, type, hex, value]
+IMAGES = [
+    [4, ['tuple', [['s', 'text'], ['s', 'int']]], '00000000' '00000004' '0000002a', ['seq', [['text', []], ['int', 42]]]],
+    [4, ['tuple', [['s', 'blob'], ['s', 'ascii'], ['s', 'int']]], '00000000' '00000000' 'ffffffff', ['seq', [['bytes', []], ['text', []], ['null']]]],
+    [3, ['udt', [['s', 'int'], ['s', 'text']]], '00000004' '00000001' '00000000', ['seq', [['int', 1], ['text', []]]]],
+    [4, ['udt', [['s', 'text'], ['s', 'text']]], '00000000', ['seq', [['text', []], ['null']]]],
+    [4, ['list', ['tuple', [['s', 'text'], ['s', 'blob']]]], '00000002' '00000008' '00000000' '00000000' '00000009' '00000001' '61' 'ffffffff',
+     ['seq', [['seq', [['text', []], ['bytes', []]]], ['seq', [['text', [97]], ['null']]]]]],
+    [2, ['map', ['s', 'int'], ['udt', [['s', 'ascii']]]], '0001' '0004' '00000007' '0004' '00000000', ['map', [[['int', 7], ['seq', [['text', []]]]]]]],
+    [4, ['list', ['s', 'text']], '00000003' '00000000' 'ffffffff' '00000001' '7a', ['seq', [['text', []], ['null'], ['text', [122]]]]],
+    [5, ['vector', ['s', 'text'], 2], '00' '0161', ['seq', [['text', []], ['text', [97]]]]],
+    [4, ['s', 'varint'], 'ff7f', ['int', -129]],
+    [4, ['s', 'varint'], '80', ['int', -128]],
+    [4, ['s', 'duration'], '02' '03' 'ffffffffffffffffff', ['dur', 1, -2, -2 ** 63]],
+]
+
+
+def image_cases():
+    out = []
+    for pv, t, hx, v in IMAGES:
+        c = decode_case(pv, t, list(bytes.fromhex(hx)), 'image')
+        c['want'] = v
+        out.append(c)
+    return out
+
+
+BIG_SIZES = [16383, 16384, 16385, 20000, 32767, 32768, 40000]
+
+
+def big_vector_cases(rng, n=3):
+    """variable-width vector elements of 16-40 KiB: the unsigned-vint size prefix crosses its 2-byte/3-byte boundary (2^14)"""
+    out = []
+    sizes = [16384, rng.choice(BIG_SIZES)] + [rng.choice(BIG_SIZES + [rng.randint(16384, 40000)]) for _ in range(max(0, n - 2))]
+    for i, L in enumerate(sizes):
+        if i % 2 == 0:
+            t, v = ['vector', ['s', 'text'], 2], ['seq', [['text', [97] * L], ['text', [98]]]]
+        else:
+            t, v = ['vector', ['s', 'blob'], 1], ['seq', [['bytes', [7] * L]]]
+        c = run_case(rng.choice([4, 5]), t, v, None, 'bigvec')
+        if c:
+            out.append(c)
+    return out
+
 
 
 def gen_cases(ctx, n_valid, n_range, n_decode, depth):
@@ -146,6 +232,7 @@ def gen_cases(ctx, n_valid, n_range, n_decode, depth):
             r = run_case(p, t, v, None, 'special')
             if r:
                 cases.append(r)
+    cases.extend(big_vector_cases(rng, 3 if n_valid < 5000 else 12))
     encs = []
     for i in range(n_valid):
         t = G.gen_type(rng, rng.randint(0, depth))
@@ -264,6 +351,73 @@ def record(ctx, cases):
             ctx.count('encode_outcome', c['enc_exc'] or 'ok')
             if G.has_coll_null(c['t'], c['v']):
                 ctx.count('features', 'null-in-collection')
+
+
+def marshal_pool(rng, n):
+    ints = list(G.INT_POOL)
+    for k in range(6, 73):
+        ints += [2 ** k, 2 ** k - 1, 2 ** k + 1]
+    for _ in range(n):
+        ints.append(rng.getrandbits(rng.choice([7, 8, 14, 15, 16, 21, 22, 28, 29, 35, 42, 49, 56, 57, 63, 64, 65, 200])))
+    ints = sorted(set(abs(x) for x in ints))
+    return ints + [-x for x in ints if x]
+
+
+def marshal_impl_oracle(ctx, rng, n):
+    """properties of cassandra.marshal alone (no model, no spec): pack/unpack read back value and size"""
+    from cassandra import marshal as M
+    for z in marshal_pool(rng, n):
+        ctx.count('marshal_oracle', 'value')
+        try:
+            b = M.varint_pack(z)
+            back = M.varint_unpack(b)
+        except Exception as e:
+            back = 'raises %s' % type(e).__name__
+        if back != z:
+            ctx.violation('marshal.varint.roundtrip', 'varint_unpack(varint_pack(%d)) = %r (bytes %s)' % (z, back, bytes(M.varint_pack(z)).hex()),
+                          case={'fn': 'varint', 'z': z}, expected=z, actual=back, theorem='C02_varint_value')
+        if 0 <= z < 2 ** 64:
+            try:
+                b = bytes(M.uvint_pack(z))
+                back = M.uvint_unpack(b + b'\x5a\x5a')
+            except Exception as e:
+                b, back = b'', 'raises %s' % type(e).__name__
+            if back != (z, len(b)):
+                ctx.violation('marshal.uvint.roundtrip', 'uvint_unpack(uvint_pack(%d)) = %r, expected (%d, %d); bytes %s' % (z, back, z, len(b), b.hex()),
+                              case={'fn': 'uvint', 'z': z}, expected=[z, len(b)], actual=back, theorem='C02_uvint_reads_back')
+        if -2 ** 63 <= z < 2 ** 63:
+            vs = [z, -z - 1, 0]
+            try:
+                back = list(M.vints_unpack(M.vints_pack(vs)))
+            except Exception as e:
+                back = 'raises %s' % type(e).__name__
+            if back != vs:
+                ctx.violation('marshal.vints.roundtrip', 'vints_unpack(vints_pack(%r)) = %r' % (vs, back),
+                              case={'fn': 'vints', 'vs': vs}, expected=vs, actual=back, theorem='C02_vints_decode')
+
+
+def marshal_spec_exprs(rng, n):
+    """cassandra.marshal against the SPECIFICATION (CassandraSpecInt.v): Gallina booleans + descriptions"""
+    from cassandra import marshal as M
+
+    def attempt(f):
+        try:
+            return list(f())
+        except Exception:
+            return None
+    exprs, meta = [], []
+    i64 = '(fun z => (- 2 ^ 63 <=? z) && (z <? 2 ^ 63))'
+    def add(fn, arg, spec, b):
+        exprs.append('obytes_eqb (%s) %s' % (spec, G.gobytes(b)))
+        meta.append((fn, arg, b, spec))
+    for z in marshal_pool(rng, n):
+        add('varint_pack', z, 'Some (spec_varint %s)' % G.gz(z), attempt(lambda: M.varint_pack(z)))
+        if z >= 0:
+            add('uvint_pack', z, 'if %s <? 2 ^ 64 then Some (spec_uvint %s) else None' % (G.gz(z), G.gz(z)), attempt(lambda: M.uvint_pack(z)))
+        vs = [z, 1, -1]
+        add('vints_pack', vs, 'if forallb %s %s then Some (flat_map spec_vint %s) else None' % (i64, G.gzl(vs), G.gzl(vs)),
+            attempt(lambda: M.vints_pack(vs)))
+    return exprs, meta
 
 
 def marshal_cases(rng, n):
